@@ -89,6 +89,9 @@ def failure_key(cls, kind, loc, msg, label):
             fn = panic_sites.fn_at(vlib.REPO, rel, int(m.group(2))) if in_repo else "-"
             return "panic:%s:%s:%s:%s" % (rel, fn, norm_msg(msg), family(cls))
         return "panic:%s:%s:%s" % (loc, norm_msg(msg), family(cls))
+    if kind == "alloc" and loc == "disproportionate":
+        # the allocation oracle proportional to the input (peak > max(1 MiB, 4096 x input length))
+        return "resource:alloc-disproportionate:%s:%s" % (family(cls), label)
     group = {"stack-overflow": "stack-overflow", "timeout": "time-or-memory", "alloc": "time-or-memory"}.get(kind, "abort")
     return "resource:%s:%s:%s" % (group, family(cls), label)
 
@@ -97,14 +100,15 @@ def parse_report(text):
     classes, fails, samples = {}, [], []
     for l in text.splitlines():
         if l.startswith("CLASS "):
-            m = re.match(r"CLASS (\S+) entry=(\S+) cases=(\d+) (.*?) maxpeak=(\d+) maxms=(\d+) labels=(\S*) tags=(\S*)", l)
+            m = re.match(r"CLASS (\S+) entry=(\S+) cases=(\d+) (.*?) maxpeak=(\d+) maxms=(\d+) maxratio=(\d+) labels=(\S*) tags=(\S*)", l)
             if not m:
                 continue
             kinds = dict((k, int(v)) for k, v in (kv.split("=") for kv in m.group(4).split()))
-            labels = dict((k, int(v)) for k, v in (x.rsplit(":", 1) for x in m.group(7).split(",") if x))
-            tags = [t for t in unhex(m.group(8)).split(",") if t]
+            labels = dict((k, int(v)) for k, v in (x.rsplit(":", 1) for x in m.group(8).split(",") if x))
+            tags = [t for t in unhex(m.group(9)).split(",") if t]
             classes[m.group(1)] = {"entry": unhex(m.group(2)), "cases": int(m.group(3)), "outcomes": kinds,
                                    "max_peak_bytes": int(m.group(5)), "max_ms": int(m.group(6)),
+                                   "max_peak_over_input_ratio (cases with peak > 1 MiB)": int(m.group(7)),
                                    "input_classes": labels, "top_observations": tags[:8]}
         elif l.startswith("SAMPLE "):
             p = l.split(" ")
@@ -304,6 +308,7 @@ def run(rep, tier, seed, replay):
         "per_entry_point": classes,
         "rule": "per entry point: fixed stress corpus (wrappers 1e4..1e5, nesting 390..410 / 1e4 / 1e5, 1e5 children, huge numbers, thresh k=0 / k>n, checksum / multipath / odds edge cases, non-ASCII, known defects) then seeded near-valid mutations of valid inputs, random printable / byte strings, cross-family inputs; binary entry points: mutated valid scripts / triples / PSBTs / asset sets",
         "guards": {"timeout": "10 s + 4 s per MB of input", "alloc_soft": "512 MiB + 256 B per input byte", "alloc_hard": "2 GiB (allocation fails => abort => attributed to the case)",
+                   "alloc_proportional": "peak > max(1 MiB, 4096 x input length) is a violation (resource:alloc-disproportionate); 4096 = 4 x the worst ratio observed on the unchanged tree (883, wide thresh text under seven simultaneous parses); measured ratio per class in per_entry_point",
                    "stack": "2 MiB thread stack (Rust's default for spawned threads); overflow kills the child and is attributed to the announced case"},
         "samples": samples[:40],
         "failures_observed": [{"key": f["key"], "class": f["class"], "kind": f["kind"], "location": f["loc"], "input_class": f["label"],
